@@ -801,6 +801,16 @@ def child_scenarios():
             "Q": T("f1")}}
         out.append(S("child-" + tag, par, {"x": 1}, {"fc": [("ok",)], "f1": [("ok",)]}, {"fc": 10, "f1": 5},
                      extra={"machines": {"child": (child if tag != "sync2" else child2, "STANDARD")}}))
+    # a callback task whose worker also sends an ordinary reply (swallowed by the dispatcher, which acknowledges it on the
+    # channel it shares with the event consumers) while a sibling branch's event is held unacknowledged; nobody presents
+    # the token, the task times out
+    tok = {"StartAt": "P", "States": {"P": {"Type": "Parallel", "End": True, "Branches": [
+        {"StartAt": "K", "States": {"K": {"Type": "Task", "Resource": "arn:aws:states:local::rpcmessage:invoke.waitForTaskToken",
+                                          "TimeoutSeconds": 2, "End": True, "Catch": [{"ErrorEquals": ["States.Timeout"], "Next": "KR"}],
+                                          "Parameters": {"FunctionName": FN + "fk", "Payload": {"tok.$": "$$.Task.Token"}}},
+                                    "KR": {"Type": "Pass", "End": True}}},
+        {"StartAt": "B", "States": {"B": T("f1")}}]}}}
+    out.append(S("token-task-with-plain-reply", tok, {"x": 1}, {"fk": [("ok",)], "f1": [("ok",)]}, {"fk": 5, "f1": 40}))
     fan = {"StartAt": "M", "States": {"M": {"Type": "Map", "ItemsPath": "$.items", "End": True, "Iterator": {
         "StartAt": "L", "States": {"L": {"Type": "Task", "Resource": "arn:aws:states:::states:startExecution.sync:2",
                                          "Parameters": {"StateMachineArn": ARN + "child", "Input": {"a": 2}}, "End": True}}}}}}
@@ -1084,7 +1094,7 @@ def run_affinity(chk, rec, quick):
     for scn in scns + gen:
         hand = not scn.name.startswith("gen")
         reps = (8 if quick else 36) if hand else 1
-        if scn.name.startswith("child-") or scn.name.startswith("map-of-sync"):
+        if scn.name.startswith("child-") or scn.name.startswith("map-of-sync") or scn.name.startswith("token-"):
             reps = 24 if quick else 96
         for _ in range(reps):
             n, qt, aio = combos[k % len(combos)]
